@@ -67,9 +67,13 @@ def random_cases(tier, rng):
         a = rng.randint(-6, 7)
         b = rng.randint(a, min(a + 6, 6) + 1)
         vmax = 3 if measure != "zncc" else (2 if s == 1 else 1)
+        # radiometry in halves / quarters (float images), and images that code their masks differently
+        iq = [1, 1, 2, 4][rng.randint(4)]
+        conv = None if rng.rand() < 0.5 else (dp.CONVENTIONS[rng.randint(len(dp.CONVENTIONS))],
+                                              dp.CONVENTIONS[rng.randint(len(dp.CONVENTIONS))])
         cases.append(dp.gen_problem(rng, rows=rows, cols=cols, win=win, s=s, measure=measure, disp=(a, b), vmax=vmax,
                                     nbands=1 if rng.rand() < 0.8 else 3, mask_mode=["none", "left", "right", "both"][rng.randint(4)],
-                                    grid=rng.rand() < 0.4))
+                                    grid=rng.rand() < 0.4, iq=iq, conv=conv))
     return cases
 
 
@@ -79,7 +83,8 @@ def features(prob, clause, detail=None, exc=None):
          "grid": prob["disp"][0] == "grid",
          "interval_exceeds_width": bool(max(abs(a), abs(b)) >= prob["cols"]),
          "masks": ("L" if prob["mL"] is not None else "") + ("R" if prob["mR"] is not None else ""),
-         "multiband": prob["bands"] is not None}
+         "multiband": prob["bands"] is not None, "fractional_radiometry": prob.get("iq", 1) > 1,
+         "mask_conventions_differ": prob.get("conv") is not None and prob["conv"][0] != prob["conv"][1]}
     if exc is not None:
         f["exception"] = type(exc).__name__
     return f
@@ -106,9 +111,9 @@ def run(tier):
     chk = Check("C02", tier)
     rng = np.random.RandomState(chk.seed + 202)
     chk.assumptions += [
-        "integer radiometry in 0..3 (0..2 / 0..1 for zncc) so that sad*s, ssd*s^2 and census costs are exact in float32",
+        "radiometry = k/iq with k in 0..3 (0..2 / 0..1 for zncc) and iq in {1,2,4}, so that sad*s*iq, ssd*(s*iq)^2 and census costs are exact in float32",
         "zncc compared through an integer enclosure of round(100*zncc) (resolution 0.02), windows 3x3, subpix 1-2",
-        "cmax is claimed for census (window^2) and zncc (1) only: for sad/ssd it depends on the radiometric range",
+        "cmax: census window^2, zncc 1, sad/ssd int(largest left-right radiometric difference^(1|2) * window^2)",
         "step = 1 (the only value Pandora accepts)",
     ]
     # ---- E: small-scope theorems of the specification ---------------------------------------------------------
